@@ -198,6 +198,23 @@ impl GlobalMonoEnv {
         self.mono_structs.insert(def.name.clone(), def);
     }
 
+    /// Replaces a definition where it lives (instances here, source definitions in the type env).
+    pub fn replace_struct(&mut self, def: StructDef) {
+        if self.mono_structs.contains_key(&def.name) {
+            self.mono_structs.insert(def.name.clone(), def);
+        } else {
+            self.genv.insert_struct(def);
+        }
+    }
+
+    pub fn replace_enum(&mut self, def: EnumDef) {
+        if self.mono_enums.contains_key(&def.name) {
+            self.mono_enums.insert(def.name.clone(), def);
+        } else {
+            self.genv.insert_enum(def);
+        }
+    }
+
     pub fn structs(&self) -> impl Iterator<Item = (&TastIdent, &StructDef)> {
         self.genv
             .structs()
@@ -1221,6 +1238,34 @@ pub fn mono(genv: GlobalTypeEnv, file: core::File) -> (MonoFile, GlobalMonoEnv) 
             ret_ty,
             body,
         });
+    }
+
+    // Fields and payloads of non-generic definitions can mention generic instances as well
+    let plain_structs: Vec<StructDef> = m
+        .struct_base
+        .values()
+        .filter(|def| def.generics.is_empty())
+        .cloned()
+        .collect();
+    for mut def in plain_structs {
+        for (_, ty) in def.fields.iter_mut() {
+            *ty = m.collapse_type_apps(ty);
+        }
+        m.monoenv.replace_struct(def);
+    }
+    let plain_enums: Vec<EnumDef> = m
+        .enum_base
+        .values()
+        .filter(|def| def.generics.is_empty())
+        .cloned()
+        .collect();
+    for mut def in plain_enums {
+        for (_, tys) in def.variants.iter_mut() {
+            for ty in tys.iter_mut() {
+                *ty = m.collapse_type_apps(ty);
+            }
+        }
+        m.monoenv.replace_enum(def);
     }
 
     // Drop all generic enum defs to avoid Go backend panics
